@@ -236,3 +236,13 @@ def post_step(args):
         return ['ERR', 'Recursion']
     except Exception as e:
         return ['ERR', canon_err(exc_kind(e))]
+
+def e2e_with(p, root, text):
+    """parse_to_xml on an existing parser object -> masked sx | ['ERR', kind]"""
+    from . import xmlsx
+    try:
+        return mask_dates(xmlsx.norm_sx(xmlsx.to_sx(p.parse_to_xml(text, root))))
+    except RecursionError:
+        return ['ERR', 'Recursion']
+    except Exception as e:
+        return ['ERR', canon_err(exc_kind(e))]
